@@ -107,6 +107,7 @@ pub const ZERO_SIZED: &[(&str, &str, &[usize], usize)] = &[
     ("const-sized arrays of structs and enums", "const N: usize = 2usize;\nstruct P { x: u8, y: bool }\nenum O { A, B(u8) }\nfn first(ps: [P; N]) -> P {\n  ps[0]\n}\npub fn main(ps: [P; N], os: [O; N]) -> ([P; N], u8, P) {\n  let qs = ps;\n  let mut rs: [P; N] = qs;\n  rs[1].x = 1u8;\n  let n = match os[0] {\n    O::A => 0u8,\n    O::B(v) => v,\n  };\n  (rs, n, first(ps))\n}\n", &[18, 18], 18 + 8 + 9),
     ("const-sized array of tuples with nested const-sized array", "const N: usize = 2usize;\nconst M: usize = 3usize;\nstruct P { x: [u8; M] }\npub fn main(ps: [(P, bool); N], y: u8) -> [(P, bool); N] {\n  let mut qs = ps;\n  for i in 0usize..2usize {\n    qs[i].0.x[0] = y;\n  }\n  qs\n}\n", &[50, 8], 50),
     ("single const-sized array of structs param", "const N: usize = 3usize;\nstruct P { x: u8, y: bool }\npub fn main(ps: [P; N]) -> u8 {\n  ps[0].x + ps[2].x\n}\n", &[9, 9, 9], 8),
+    ("main parameter named like a wider constant", "const K: u16 = 300u16;\nfn g(x: u16) -> u16 {\n  if x > K { x } else { K }\n}\npub fn main(K: u8, y: u16) -> u16 {\n  g(y) + (K as u16)\n}\npub fn other(y: u16, K: bool) -> u16 {\n  if K { g(y) } else { y }\n}\n", &[8, 16], 16),
     ("single array param 3", "pub fn main(x: [u16; 3]) -> u16 {\n  x[0]\n}\n", &[16, 16, 16], 16),
     ("single array of arrays", "pub fn main(x: [[u8; 2]; 2]) -> u8 {\n  x[1][0]\n}\n", &[16, 16], 8),
 ];
